@@ -722,6 +722,16 @@ def build_sq(rng):
             return None
         return G.Op("squeeth", "withdraw_uni_position", "forced", lambda: sm.withdraw_uni_position(state["vault"], state["pos"]))
 
+    def f_readd(strat):
+        # liquidity added once more to exactly the range of the position that was lent (and maybe returned, or redeemed by a
+        # liquidation since): whoever holds that range now, the new liquidity is counted once
+        if "pos" not in state:
+            return None
+        pos = state["pos"]
+        ob, wb = G.bal(strat.broker, osqth), G.bal(strat.broker, weth)
+        return G.Op("uniswap", "add_liquidity_by_tick", "forced-same-range",
+                    lambda: um.add_liquidity_by_tick(pos.lower_tick, pos.upper_tick, ob * Decimal("0.1"), wb * Decimal("0.02")))
+
     b0 = rng.randint(0, 2)
     forced.setdefault((b0, rng.choice(["before_bar", "on_bar"])), []).append(f_open)
     forced.setdefault((b0 + 1, rng.choice(["before_bar", "on_bar", "after_bar"])), []).append(f_add)
@@ -729,6 +739,8 @@ def build_sq(rng):
     forced.setdefault((b2, rng.choice(["before_bar", "on_bar", "after_bar"])), []).append(f_dep)
     if not redeem_variant and rng.random() < 0.7:
         forced.setdefault((b2 + rng.randint(1, 8), rng.choice(["before_bar", "on_bar", "after_bar"])), []).append(f_wd)
+    if rng.random() < 0.7:
+        forced.setdefault((min(n - 1, b2 + rng.randint(3, 12)), rng.choice(["before_bar", "on_bar", "after_bar"])), []).append(f_readd)
     return {"markets": [um, sm] if rng.random() < 0.5 else [sm, um], "kits": kits, "frame": frame, "quote": _usd(), "assets": assets,
             "interval": interval, "index": sw.index, "forced": forced,
             "info": {"own_prices": own, "interval": interval, "path": sw_kind, "redeem_variant": redeem_variant}}
